@@ -14,6 +14,27 @@ pub fn special_seed(i: u64) -> [u8; 32] {
     s
 }
 
+/// the selected special seeds of one kind for one variant: the first `quick_max` in file order (16 x as many in the
+/// thorough tier).  File: corpus/special_seeds.txt, lines `N index kind detail…` (written by
+/// bin/select_seeds from `vh seedsearch` output).
+pub fn special(n: usize, tier: &str, kind: &str, quick_max: usize) -> Vec<Vec<u8>> {
+    let path = format!("{}/../corpus/special_seeds.txt", env!("CARGO_MANIFEST_DIR"));
+    let mut out = vec![];
+    if let Ok(s) = std::fs::read_to_string(&path) {
+        for l in s.lines() {
+            let t: Vec<&str> = l.split_whitespace().collect();
+            if t.len() >= 3 && !l.starts_with('#') && t[0].parse::<usize>().ok() == Some(n) && t[2] == kind {
+                if let Ok(i) = t[1].parse::<u64>() {
+                    out.push(special_seed(i).to_vec());
+                }
+            }
+        }
+    }
+    // the thorough tier replays sixteen times as many (key generation per seed is sequential in the generators)
+    out.truncate(if tier == "thorough" { quick_max * 16 } else { quick_max });
+    out
+}
+
 fn events_of(n: usize, seed: [u8; 32]) -> Vec<String> {
     vh::trace_start(false);
     if n == 512 {
@@ -36,18 +57,43 @@ fn events_of(n: usize, seed: [u8; 32]) -> Vec<String> {
             "keygen.candidate" => last_cand = e.ints.clone(),
             "keygen.reject.range_fg" => {
                 let m = last_drawn.iter().map(|x| x.abs()).max().unwrap_or(0);
-                out.push(format!("range_fg max={m} cand={cand}"));
+                // would a key generator without this guard go on to emit this candidate?
+                let fi: Vec<i16> = last_drawn[..n].iter().map(|&x| x as i16).collect();
+                let gi: Vec<i16> = last_drawn[n..].iter().map(|&x| x as i16).collect();
+                let fq: Vec<u32> = fi.iter().map(|&x| (x as i64).rem_euclid(12289) as u32).collect();
+                let inv = vh::felt_fft(&fq).iter().all(|&v| v != 0);
+                let mut emit = false;
+                if inv && vh::gram_schmidt_norm_squared(&fi, &gi) <= 1.3689 * q {
+                    let f32v: Vec<i32> = fi.iter().map(|&x| x as i32).collect();
+                    let g32v: Vec<i32> = gi.iter().map(|&x| x as i32).collect();
+                    if let Ok(Some((cf, cg))) = std::panic::catch_unwind(|| vh::ntru_solve_entrypoint(&f32v, &g32v)) {
+                        emit = cf.iter().chain(cg.iter()).all(|c| c.abs() <= 127);
+                    }
+                }
+                out.push(format!("range_fg max={m} would_emit={emit} cand={cand}"));
             }
             "keygen.reject.not_invertible" => {
                 let f: Vec<u32> = last_cand[..n].iter().map(|&x| x.rem_euclid(12289) as u32).collect();
                 let t = vh::felt_fft(&f);
                 let slots: Vec<String> = t.iter().enumerate().filter(|(_, &v)| v == 0).map(|(i, _)| i.to_string()).collect();
-                out.push(format!("ntt_zero slots={} cand={cand}", slots.join(",")));
+                // would a key generator without this guard go on to emit this candidate?  (norm bound, solvable, F and G in range)
+                let fi: Vec<i16> = last_cand[..n].iter().map(|&x| x as i16).collect();
+                let gi: Vec<i16> = last_cand[n..].iter().map(|&x| x as i16).collect();
+                let gamma_ok = vh::gram_schmidt_norm_squared(&fi, &gi) <= 1.3689 * q;
+                let mut emit = false;
+                if gamma_ok {
+                    let f32v: Vec<i32> = fi.iter().map(|&x| x as i32).collect();
+                    let g32v: Vec<i32> = gi.iter().map(|&x| x as i32).collect();
+                    if let Ok(Some((cf, cg))) = std::panic::catch_unwind(|| vh::ntru_solve_entrypoint(&f32v, &g32v)) {
+                        emit = cf.iter().chain(cg.iter()).all(|c| c.abs() <= 127);
+                    }
+                }
+                out.push(format!("ntt_zero slots={} gamma_ok={gamma_ok} would_emit={emit} cand={cand}", slots.join(",")));
             }
             "keygen.gamma" => {
                 let g = e.floats[0] / q;
                 if g > 1.33 && g < 1.41 {
-                    out.push(format!("gamma value={:.6} cand={cand}", g));
+                    out.push(format!("gamma value={:.9} cand={cand}", g));
                 }
             }
             "keygen.reject.range_capital" => {
@@ -60,6 +106,84 @@ fn events_of(n: usize, seed: [u8; 32]) -> Vec<String> {
         }
     }
     out
+}
+
+/// cheap search for seeds whose candidate stream contains an (f, g) outside the field range that every other guard would
+/// let through: the stream is replayed with the exported `gen_poly` and the cheap guards only (range, NTT zero, norm);
+/// `ntru_solve` runs only on the hits.  Output lines as in `search` (kind range_fg).
+pub fn fgsearch(n: usize, start: u64, count: u64, outfile: &str) {
+    use rand::SeedableRng;
+    let next = Arc::new(AtomicU64::new(start));
+    let out = Arc::new(Mutex::new(std::io::BufWriter::new(std::fs::File::create(outfile).unwrap())));
+    let lim: i16 = if n == 512 { 32 } else { 16 };
+    let q = 12289.0f64;
+    let mut hs = vec![];
+    for _ in 0..16 {
+        let (next, out) = (next.clone(), out.clone());
+        hs.push(std::thread::Builder::new().stack_size(64 << 20).spawn(move || loop {
+            let i = next.fetch_add(1, Ordering::SeqCst);
+            if i >= start + count {
+                break;
+            }
+            let mut rng = rand::rngs::StdRng::from_seed(special_seed(i));
+            for cand in 1..200 {
+                let f = vh::gen_poly(n, &mut rng);
+                let g = vh::gen_poly(n, &mut rng);
+                let m = f.iter().chain(g.iter()).map(|c| c.abs()).max().unwrap_or(0);
+                let fq: Vec<u32> = f.iter().map(|&x| (x as i64).rem_euclid(12289) as u32).collect();
+                let inv = vh::felt_fft(&fq).iter().all(|&v| v != 0);
+                let gam_ok = inv && vh::gram_schmidt_norm_squared(&f, &g) <= 1.3689 * q;
+                if m >= lim {
+                    if gam_ok {
+                        let f32v: Vec<i32> = f.iter().map(|&x| x as i32).collect();
+                        let g32v: Vec<i32> = g.iter().map(|&x| x as i32).collect();
+                        let emit = match std::panic::catch_unwind(|| vh::ntru_solve_entrypoint(&f32v, &g32v)) {
+                            Ok(Some((cf, cg))) => cf.iter().chain(cg.iter()).all(|c| c.abs() <= 127),
+                            _ => false,
+                        };
+                        if emit {
+                            let mut o = out.lock().unwrap();
+                            writeln!(o, "{n} {i} range_fg max={m} would_emit=true cand={cand}").unwrap();
+                        }
+                    }
+                    continue;
+                }
+                if gam_ok {
+                    break; // this candidate goes on to ntru_solve: almost always the accepted one
+                }
+            }
+        }).unwrap());
+    }
+    for h in hs {
+        h.join().unwrap();
+    }
+}
+
+/// re-run the seeds listed in `infile` (one index per line)
+pub fn recheck(n: usize, infile: &str, outfile: &str) {
+    let idx: Vec<u64> = std::fs::read_to_string(infile).unwrap().lines().filter_map(|l| l.trim().parse().ok()).collect();
+    let idx = Arc::new(idx);
+    let next = Arc::new(AtomicU64::new(0));
+    let out = Arc::new(Mutex::new(std::io::BufWriter::new(std::fs::File::create(outfile).unwrap())));
+    let mut hs = vec![];
+    for _ in 0..16 {
+        let (next, out, idx) = (next.clone(), out.clone(), idx.clone());
+        hs.push(std::thread::Builder::new().stack_size(64 << 20).spawn(move || loop {
+            let k = next.fetch_add(1, Ordering::SeqCst) as usize;
+            if k >= idx.len() {
+                break;
+            }
+            let i = idx[k];
+            let lines = std::panic::catch_unwind(|| events_of(n, special_seed(i))).unwrap_or_else(|_| vec!["PANIC".to_string()]);
+            let mut o = out.lock().unwrap();
+            for l in lines {
+                writeln!(o, "{n} {i} {l}").unwrap();
+            }
+        }).unwrap());
+    }
+    for h in hs {
+        h.join().unwrap();
+    }
 }
 
 pub fn search(n: usize, start: u64, count: u64, outfile: &str) {
